@@ -44,7 +44,9 @@ def main():
                 line += " suite=%s" % ("pass" if ok else "FAIL")
             for prop in props:
                 s = time.time()
-                c = sh("cd /verif && ./check %s --tier %s" % (prop, tier))
+                # evidence of runs against a broken tree goes to a scratch directory
+                os.makedirs("/tmp/waxmc-mutant-evidence/replays", exist_ok=True)
+                c = sh("cd /verif && WAXMC_EVIDENCE_DIR=/tmp/waxmc-mutant-evidence ./check %s --tier %s" % (prop, tier))
                 viol = [l for l in c.stdout.splitlines() if l.startswith("VIOLATION")]
                 first = ""
                 lines = c.stdout.splitlines()
